@@ -1307,8 +1307,3 @@ mod c16 {
             "arm_hits": {"win": arms[0], "loss": arms[1], "break_even": arms[2], "balance": arms[3], "generate_event": arms[4], "keyed_by_name": arms[5]}}));
     }
 }
-
-#[allow(unused)]
-fn _unused(_: &mut impl Rng) {
-    let _ = Decimal::from_str("0");
-}
